@@ -27,6 +27,12 @@ PROFILE = {
                 # in channel_reestablish: give them a larger share of the resync traces
                 types="legacy,tweakless,anchors,legacy,zerofee,lease,legacy,taproot,taprootfinal,legacy",
                 mc_timeout=dict(quick=600, thorough=3000)),
+    # API level (Fused = FALSE): sign-before-revoke peers and channel_reestablish on live objects (SoftDisconnect)
+    "C06api": dict(mc=dict(quick=[], thorough=[]),
+                   gen=dict(MaxDisc=3, MaxAdds=2, MaxFees=1, MaxLen=60), gen_cfg="ChannelGen_api.cfg",
+                   n=dict(quick=40, thorough=300), shadow=1, types="tweakless,anchors,legacy,taproot",
+                   directed="directed_api",
+                   mc_timeout=dict(quick=600, thorough=3000)),
     "C06": dict(mc=dict(quick=[], thorough=[]),
                 gen=dict(MaxDisc=2, MaxAdds=3, MaxFees=1, MaxLen=80),
                 n=dict(quick=30, thorough=250), shadow=1,
@@ -125,8 +131,12 @@ def run_channel(ck, prop, extra_overlay=None):
     # (b) behaviours
     n = prof["n"][tier]
     g = prof["gen"]
-    files = ck.generate(SPEC, "ChannelGen", "ChannelGen.cfg", n, g["MaxLen"] + 10,
+    files = ck.generate(SPEC, "ChannelGen", prof.get("gen_cfg", "ChannelGen.cfg"), n, g["MaxLen"] + 10,
                         constants={k: v for k, v in g.items()}, timeout=1500)
+    if prof.get("directed"):
+        import glob, shutil
+        for i, f in enumerate(sorted(glob.glob(os.path.join(SPEC, prof["directed"], "*.ndjson")))):
+            shutil.copy(f, os.path.join(os.path.dirname(files[0]), "b_%d.ndjson" % (900000 + i)))
     # (c) the real channels
     res = ck.go_test("./lnwallet/", "^TestVerifChannelExec$", ["lnwallet/channel_exec_test.go"],
                      env={"VERIF_SCHED": os.path.dirname(files[0]), "VERIF_TYPES": prof.get("types", ALL_TYPES),
@@ -211,6 +221,8 @@ def run_channel(ck, prop, extra_overlay=None):
 
 def c06_release(ck):
     run_channel(ck, "C06")
+    if not ck.violations:
+        run_channel(ck, "C06api")
 
 
 import re
